@@ -261,6 +261,25 @@ CHECKS = {
               "the short-range regime). Arbitrary arrays have entries -2..2 from a seeded generator (exhaustive enumeration "
               "infeasible). Same trusted base as C02."),
         design="5/C03 and 11.2"),
+    "C09": dict(
+        text=("MeshGrid.tla states C09 on exact integer data: a q-point of any mesh is X = q Q mod Q with Q = 2 sd m1 m2 m3 "
+              "(all mesh numbers; zero, half and generic rational shifts; Monkhorst-Pack and Gamma-centred; explicit or "
+              "length-specified meshes), reciprocal operations R^-T plus -1 for time reversal act on X exactly. Requirement: "
+              "addresses label every grid point once; every grid point is the image of its representative under an allowed "
+              "operation; ir points and weights are the classes and their sizes and the weights sum to N; the q-points handed "
+              "out are the representatives'; mesh symmetry off means the unreduced mesh; orbit-invariant weighted sums agree; "
+              "a length gives every axis the largest number of its symmetry class. TLC checks it on a step machine "
+              "transcribing init_mesh -> MeshBase -> GridPoints and length2mesh with exact point groups TLC computes for the "
+              "reference crystals (incl. hexagonal and primitive cells of centred lattices and two-generator subgroups); the "
+              "machine's final states are replayed on the real code and must match exactly; in MeshGridTrace.tla the "
+              "recorded grid_address, grid_mapping_table, ir_grid_points, weights and q-points of real GridPoints and "
+              "Phonopy.init_mesh calls are judged. On spring-model crystals thermal properties, smearing DOS and moments with "
+              "mesh symmetry on and off agree to 1e-9."),
+        note=("Trusted: TLC and the projection (q Q rounding, residual < 1e-6). spglib is under test, not trusted. phonopy "
+              "evaluates eigenvalues and thermal functions on both sides of the on/off comparison. Bounds: mesh numbers 1..4 "
+              "with N <= 64 (quick), 1..5 with N <= 80 (thorough); shift denominators 1,2,3,4,5,8; subgroups sampled. "
+              "IterMesh and GeneralizedRegularGridPoints are not covered; no Apalache proof."),
+        design="5/C09 and 11.2"),
 }
 
 NOT_BUILT = "check under construction in this round; not yet claimed"
